@@ -66,12 +66,17 @@ func verifAssume(c bool) {
 		panic(verifStop{"assume"})
 	}
 }
+// verifAssert records a failed assertion and carries on, like the engine does
+// (which continues under the assumption that the assertion holds), so that a
+// later assertion reported by the engine can be reproduced too.
 func verifAssert(c bool, msg string) {
 	if !c {
 		veriffmt.Println("VERIF-ASSERT-FAIL: " + msg)
-		panic(verifStop{"assert"})
+		verifFailures++
 	}
 }
+
+var verifFailures int
 func verifFail(msg string)       { verifAssert(false, msg) }
 func verifReach(label string)    {}
 func verifSymbolic() bool        { return false }
